@@ -5,6 +5,7 @@ package props
 import (
 	"errors"
 	"fmt"
+	conf "github.com/alibaba/RedisShake/redis-shake/configure"
 	"sort"
 	"strings"
 	"sync"
@@ -138,6 +139,10 @@ func runShard(s shardScript) shardResult {
 			return nil, errors.New("verif: more probes than the bounded retry allows")
 		}
 		b := s.plan[host][a]
+		if tls != conf.Options.SourceTLSEnable {
+			// the source nodes speak the source's transport: a probe over the other one cannot connect
+			return nil, errors.New("dial: transport mismatch (probe does not use source.tls_enable)")
+		}
 		if b == nbConnErr {
 			return nil, errors.New("dial tcp: connection refused (injected)")
 		}
@@ -223,6 +228,10 @@ func checkShard(s shardScript, r shardResult) (string, string) {
 }
 
 func c20Batch(t *rapid.T) {
+	// source and target may use different transports: the probes go to source nodes and must use the source's setting
+	tlsCase := rapid.SampledFrom([][2]bool{{false, false}, {false, true}, {true, false}, {true, true}}).Draw(t, "tls")
+	conf.Options.SourceTLSEnable, conf.Options.TargetTLSEnable = tlsCase[0], tlsCase[1]
+	defer func() { conf.Options.SourceTLSEnable, conf.Options.TargetTLSEnable = false, false }()
 	k := rapid.IntRange(80, 120).Draw(t, "k")
 	scripts := make([]shardScript, k)
 	for i := range scripts {
@@ -260,6 +269,31 @@ func c20Batch(t *rapid.T) {
 		stats.C.Case(nt, stats.HashS(s.String()), cls...)
 		if nt && len(s.nodes) >= 3 && len(s.nodes) <= 4 {
 			stats.C.Sample("shard " + s.String())
+		}
+	}
+	// the other transport combinations, on shards whose master answers in the first round (no back-off)
+	for _, tc := range [][2]bool{{false, false}, {false, true}, {true, false}, {true, true}} {
+		if tc == tlsCase {
+			continue
+		}
+		conf.Options.SourceTLSEnable, conf.Options.TargetTLSEnable = tc[0], tc[1]
+		for i := 0; i < 3; i++ {
+			s := drawShard(t, 200+i)
+			for n := range s.plan {
+				for a := range s.plan[n] {
+					s.plan[n][a] = nbSlave
+				}
+			}
+			m := s.nodes[rapid.IntRange(0, len(s.nodes)-1).Draw(t, "tlsMaster")]
+			for a := range s.plan[m] {
+				s.plan[m][a] = nbMaster
+			}
+			if sig, msg := checkShard(s, runShard(s)); sig != "" {
+				if violation(t, "C20", sig, "source.tls_enable=%v target.tls_enable=%v; shard script [%s]: %s", tc[0], tc[1], s, msg) {
+					continue
+				}
+			}
+			stats.C.Case(true, stats.HashS(fmt.Sprint(tc, s.String())), "shard", fmt.Sprintf("tls-source=%v-target=%v", tc[0], tc[1]))
 		}
 	}
 }
